@@ -67,6 +67,13 @@ func runC06(t *sim.T, tier string) *sim.Violation {
 		msg := gen.RichFeedMin(t, 3)
 		b := gen.MarshalFeed(msg)
 		inputs = append(inputs, c06Input{0, b, fmt.Sprintf("rt%d(%dB)", i, len(b))})
+		if t.Chance(1, 3) {
+			if sib, n := gen.PerturbValues(t, msg); n > 0 {
+				sb := gen.MarshalFeed(sib)
+				inputs = append(inputs, c06Input{0, sb, fmt.Sprintf("rt%d-same-ids-other-values(%d)", i, n)})
+				t.Probe("perturbed-value-sibling")
+			}
+		}
 		if t.Chance(1, 4) {
 			if sib, n := gen.IrregularIDs(t, msg); n > 0 {
 				sb := gen.MarshalFeed(sib)
